@@ -94,6 +94,7 @@ func init() {
 		Quick: []H{{Pkg: "components", Fn: "VxH10", MustReach: []string{"ran"}, MustAssert: ma10},
 			{Pkg: "components", Fn: "VxH10", Params: p("prepend", 1, "shape", 1), MustReach: []string{"ran"}, MustAssert: ma10},
 			{Pkg: "components", Fn: "VxH10", Params: p("prepend", 0, "shape", 2), MustReach: []string{"ran"}, MustAssert: ma10},
+			{Pkg: "components", Fn: "VxH10", Params: p("diamond", 1), MustReach: []string{"ran"}, MustAssert: ma10},
 			{Pkg: "components", Fn: "VxH10kill", Params: p("N", 70), MustReach: []string{"killed"}, MustAssert: []string{"C10.finalized-output-always-has-its-record"}}},
 		Bounds: map[string]string{
 			"workflow":  "two FileSources -> two MapToTags (different tags) -> two-input, two-output command process with a parameter (with and without a Prepend prefix) -> final command process whose output is plain / ../ relative / absolute, run by the real Workflow.Run",
@@ -298,10 +299,10 @@ func init() {
 	th = append(th, q[7:]...)
 	regCheck(&Check{ID: "C12", Quick: q, Thorough: th,
 		Bounds: map[string]string{
-			"scenarios": "six real workflows run by the real Workflow.Run: fan-out to two processes + fan-in; fan-out to MapToTags and a sibling consumer; streaming pair; multi-core tasks of two processes; FileSplitter output fanned out to two consumers; two tagged inputs merged while sibling components read the tags",
+			"scenarios": "seven real workflows run by the real Workflow.Run: fan-out to two processes + fan-in; fan-out to MapToTags and a sibling consumer; streaming pair; multi-core tasks of two processes; FileSplitter output fanned out to two consumers; two tagged inputs merged while sibling components read the tags; three senders connected to one parameter in-port and three to one file in-port (fan-in, concurrent CloseConnection)",
 			"trace":     "every load / store through a pointer, every map read / write and every JSON marshal traversal, per goroutine, plus every channel send / receive / close, mutex lock / unlock, go statement, WaitGroup event (1 100 - 3 900 events per run)",
 			"query":     "for every pair of conflicting accesses (same location, different goroutines, one a write, at least one in library code; 3 instances per pair of code sites): is there a total order of the synchronisation events consistent with program order, channel matching and capacity, recorded critical-section order and goroutine creation in which the two accesses are adjacent",
-			"schedule":  "quick: the default schedule of each scenario; thorough: plus every schedule with one deviation for four of the six scenarios",
+			"schedule":  "quick: the default schedule of each scenario; thorough: plus every schedule with one deviation for five of the seven scenarios",
 		},
 		Outside: []string{
 			"re-orderings that change a goroutine's control flow (the analysis keeps the recorded control flow of each goroutine; critical sections keep their recorded order)",
@@ -316,7 +317,7 @@ func init() {
 func finishRegistry() {
 	// model validation: concrete scenarios run in the interpreter on the environment model
 	// and natively (real bash, real file system); see cmd/verif/nv.go
-	for id, scs := range map[string][]int{"C01": {0, 5, 6}, "C02": {0}, "C03": {0, 5, 6}, "C09": {0}, "C04": {3}, "C05": {3}, "C16": {3}, "C08": {3},
+	for id, scs := range map[string][]int{"C01": {0, 5, 6, 7, 8}, "C02": {0}, "C03": {0, 5, 6}, "C09": {0, 7, 8, 9}, "C04": {3}, "C05": {3}, "C16": {3}, "C08": {3},
 		"C10": {1, 5}, "C11": {1, 6}, "C12": {1}, "C17": {2}, "C19": {4}, "C18": {3}} {
 		checks[id].NV = scs
 	}
